@@ -65,7 +65,7 @@ def run(chk):
 
     # ---- 2. token faults on valid texts (TLC), prefixes (native)
     cfg = os.path.join(W, "faults.cfg")
-    open(cfg, "w").write("SPECIFICATION FSpec\nINVARIANTS FEmit\nCHECK_DEADLOCK FALSE\n")
+    open(cfg, "w").write("SPECIFICATION FSpec\nCONSTANT NCompose = 0\nINVARIANTS FEmit\nCHECK_DEADLOCK FALSE\n")
     fin2 = os.path.join(W, "fault.in.ndjson")
     meta = []
     fh = open(fin2, "w")
